@@ -107,33 +107,37 @@ Definition proto_called (items : list ditem) : bool :=
 Lemma calls_app a b : calls (a ++ b) = calls a ++ calls b.
 Proof. apply flat_map_app. Qed.
 
-Lemma apply_reops_no_calls s ops : calls (snd (apply_reops s ops)) = [] /\ proto_called (snd (apply_reops s ops)) = false.
+Section WithBeh.
+Variable beh : nat -> nat -> dres * list reop.
+(** whatever a dispatch started from inside a running handler does *)
+Variable disp : dstate -> nat -> kind -> dstate * list ditem.
+
+Lemma apply_reops_no_calls s ops : calls (snd (apply_reops disp s ops)) = [] /\ proto_called (snd (apply_reops disp s ops)) = false.
 Proof.
   revert s. induction ops as [|o r IH]; intros s; simpl; [auto|].
-  assert (Ho : calls (snd (apply_reop s o)) = [] /\ proto_called (snd (apply_reop s o)) = false).
-  { destruct o as [i k h|i k h]; simpl; unfold d_register, d_unregister; destruct (get_w s i) as [w|]; simpl; auto.
+  assert (Ho : calls (snd (apply_reop disp s o)) = [] /\ proto_called (snd (apply_reop disp s o)) = false).
+  { destruct o as [i k h|i k h|i k]; simpl; [| |destruct (disp s i k); simpl; auto];
+      unfold d_register, d_unregister; destruct (get_w s i) as [w|]; simpl; auto.
     destruct (remove_first h (chain w k)); simpl; auto. }
-  destruct (apply_reop s o) as [s1 i1]. specialize (IH s1). destruct (apply_reops s1 r) as [s2 i2]. simpl in *.
+  destruct (apply_reop disp s o) as [s1 i1]. specialize (IH s1). destruct (apply_reops disp s1 r) as [s2 i2]. simpl in *.
   destruct Ho as [H1 H2]. destruct IH as [H3 H4]. rewrite calls_app, H1, H3. unfold proto_called in *. rewrite existsb_app, H2, H4. auto.
 Qed.
 
-Section WithBeh.
-Variable beh : nat -> nat -> dres * list reop.
 
 (** One dispatch invokes the chain as it was when the dispatch started (a snapshot: whatever the
     running handlers register or unregister), newest first, each entry at most once: the calls
     made are a prefix of that snapshot. *)
 Theorem dispatch_calls_prefix s snap inst k :
-  exists suf, snap = calls (snd (run_chain beh s snap inst k)) ++ suf.
+  exists suf, snap = calls (snd (run_chain beh disp s snap inst k)) ++ suf.
 Proof.
   revert s. induction snap as [|h r IH]; intros s; simpl.
   - exists []. reflexivity.
   - destruct (beh h (nth h (d_calls s) 0)) as [res ops].
     pose proof (apply_reops_no_calls (bump s h) ops) as [Hc Hp].
-    destruct (apply_reops (bump s h) ops) as [s1 i1]. simpl in Hc, Hp.
+    destruct (apply_reops disp (bump s h) ops) as [s1 i1]. simpl in Hc, Hp.
     destruct (interruptible k && match res with RInterrupt => true | _ => false end).
     + simpl. rewrite Hc. exists r. reflexivity.
-    + specialize (IH s1). destruct (run_chain beh s1 r inst k) as [s2 i2]. simpl in *.
+    + specialize (IH s1). destruct (run_chain beh disp s1 r inst k) as [s2 i2]. simpl in *.
       destruct IH as (suf & E). exists suf. rewrite calls_app, Hc. simpl. f_equal. exact E.
 Qed.
 
@@ -141,30 +145,30 @@ Qed.
     whatever the handlers return. *)
 Theorem dispatch_whole_chain_when_not_interruptible s snap inst k :
   interruptible k = false ->
-  calls (snd (run_chain beh s snap inst k)) = snap /\ proto_called (snd (run_chain beh s snap inst k)) = true.
+  calls (snd (run_chain beh disp s snap inst k)) = snap /\ proto_called (snd (run_chain beh disp s snap inst k)) = true.
 Proof.
   intros Hk. revert s. induction snap as [|h r IH]; intros s; simpl; [auto|].
   destruct (beh h (nth h (d_calls s) 0)) as [res ops].
   pose proof (apply_reops_no_calls (bump s h) ops) as [Hc Hp].
-  destruct (apply_reops (bump s h) ops) as [s1 i1]. simpl in Hc, Hp. rewrite Hk. simpl.
-  specialize (IH s1). destruct (run_chain beh s1 r inst k) as [s2 i2]. simpl in *. destruct IH as [I1 I2].
+  destruct (apply_reops disp (bump s h) ops) as [s1 i1]. simpl in Hc, Hp. rewrite Hk. simpl.
+  specialize (IH s1). destruct (run_chain beh disp s1 r inst k) as [s2 i2]. simpl in *. destruct IH as [I1 I2].
   rewrite calls_app, Hc, I1. split; [reflexivity|]. unfold proto_called in *. rewrite existsb_app, I2. apply orb_true_r.
 Qed.
 
 (** for timer / telemetry / packet: the protocol's own method runs iff no invoked handler
     returned INTERRUPT; the chain stops right after the first handler that did. *)
 Theorem dispatch_interrupt s snap inst k :
-  (proto_called (snd (run_chain beh s snap inst k)) = true -> calls (snd (run_chain beh s snap inst k)) = snap) /\
-  (proto_called (snd (run_chain beh s snap inst k)) = false ->
-     interruptible k = true /\ calls (snd (run_chain beh s snap inst k)) <> []).
+  (proto_called (snd (run_chain beh disp s snap inst k)) = true -> calls (snd (run_chain beh disp s snap inst k)) = snap) /\
+  (proto_called (snd (run_chain beh disp s snap inst k)) = false ->
+     interruptible k = true /\ calls (snd (run_chain beh disp s snap inst k)) <> []).
 Proof.
   revert s. induction snap as [|h r IH]; intros s; simpl; [split; [reflexivity|discriminate]|].
   destruct (beh h (nth h (d_calls s) 0)) as [res ops].
   pose proof (apply_reops_no_calls (bump s h) ops) as [Hc Hp].
-  destruct (apply_reops (bump s h) ops) as [s1 i1]. simpl in Hc, Hp.
+  destruct (apply_reops disp (bump s h) ops) as [s1 i1]. simpl in Hc, Hp.
   destruct (interruptible k && match res with RInterrupt => true | _ => false end) eqn:Es.
   - simpl. rewrite Hc, Hp. split; [discriminate|]. intros _. apply andb_true_iff in Es. split; [tauto|discriminate].
-  - specialize (IH s1). destruct (run_chain beh s1 r inst k) as [s2 i2]. simpl in *. destruct IH as [I1 I2].
+  - specialize (IH s1). destruct (run_chain beh disp s1 r inst k) as [s2 i2]. simpl in *. destruct IH as [I1 I2].
     rewrite calls_app, Hc. unfold proto_called in *. simpl. rewrite existsb_app, Hp. simpl. split.
     + intros H. rewrite (I1 H). reflexivity.
     + intros H. destruct (I2 H) as [J1 _]. split; [exact J1|discriminate].
@@ -173,46 +177,100 @@ Qed.
 (** a handler that returns CONTINUE or None never stops the chain *)
 Theorem dispatch_no_interrupt s snap inst k :
   (forall h n, fst (beh h n) <> RInterrupt) ->
-  calls (snd (run_chain beh s snap inst k)) = snap /\ proto_called (snd (run_chain beh s snap inst k)) = true.
+  calls (snd (run_chain beh disp s snap inst k)) = snap /\ proto_called (snd (run_chain beh disp s snap inst k)) = true.
 Proof.
   intros Hn. revert s. induction snap as [|h r IH]; intros s; simpl; [auto|].
   pose proof (Hn h (nth h (d_calls s) 0)) as Hh.
   destruct (beh h (nth h (d_calls s) 0)) as [res ops]. simpl in Hh.
   pose proof (apply_reops_no_calls (bump s h) ops) as [Hc Hp].
-  destruct (apply_reops (bump s h) ops) as [s1 i1]. simpl in Hc, Hp.
+  destruct (apply_reops disp (bump s h) ops) as [s1 i1]. simpl in Hc, Hp.
   assert (interruptible k && match res with RInterrupt => true | _ => false end = false) as ->.
   { destruct res; try congruence; apply andb_false_r. }
-  specialize (IH s1). destruct (run_chain beh s1 r inst k) as [s2 i2]. simpl in *. destruct IH as [I1 I2].
+  specialize (IH s1). destruct (run_chain beh disp s1 r inst k) as [s2 i2]. simpl in *. destruct IH as [I1 I2].
   rewrite calls_app, Hc, I1. split; [reflexivity|]. unfold proto_called in *. rewrite existsb_app, I2. apply orb_true_r.
 Qed.
 
 (** all calls of one dispatch are for the dispatched instance and kind: handlers registered for
     one protocol instance never run for another *)
 Theorem dispatch_only_own_instance s snap inst k :
-  forall it, In it (snd (run_chain beh s snap inst k)) ->
+  forall it, In it (snd (run_chain beh disp s snap inst k)) ->
     match it with DCall i k' _ => i = inst /\ k' = k | DProto i k' => i = inst /\ k' = k | _ => True end.
 Proof.
   revert s. induction snap as [|h r IH]; intros s; simpl.
   - intros it [<-|[]]. auto.
   - destruct (beh h (nth h (d_calls s) 0)) as [res ops].
-    assert (Hre : forall s0 it, In it (snd (apply_reops s0 ops)) -> match it with DCall _ _ _ | DProto _ _ => False | _ => True end).
-    { clear. induction ops as [|o r IH]; intros s0 it; simpl; [intros []|].
-      assert (Ho : forall it, In it (snd (apply_reop s0 o)) -> match it with DCall _ _ _ | DProto _ _ => False | _ => True end).
-      { destruct o as [i k h|i k h]; simpl; unfold d_register, d_unregister; destruct (get_w s0 i) as [w|]; simpl;
+    assert (Hre : forall s0 it, In it (snd (apply_reops disp s0 ops)) -> match it with DCall _ _ _ | DProto _ _ => False | _ => True end).
+    { clear - ops. induction ops as [|o r0 IH]; intros s0 it; simpl; [intros []|].
+      assert (Ho : forall it, In it (snd (apply_reop disp s0 o)) -> match it with DCall _ _ _ | DProto _ _ => False | _ => True end).
+      { destruct o as [i k h|i k h|i k]; simpl; [| |destruct (disp s0 i k); simpl; intros it0 [<-|[]]; exact I];
+          unfold d_register, d_unregister; destruct (get_w s0 i) as [w|]; simpl;
           try (intros it0 [<-|[]]; exact I); try (intros it0 []).
         destruct (remove_first h (chain w k)); simpl; [intros it0 []|intros it0 [<-|[]]; exact I]. }
-      destruct (apply_reop s0 o) as [s1 i1]. specialize (IH s1). destruct (apply_reops s1 r) as [s2 i2]. simpl in *.
+      destruct (apply_reop disp s0 o) as [s1 i1]. specialize (IH s1). destruct (apply_reops disp s1 r0) as [s2 i2]. simpl in *.
       intros Hin. apply in_app_or in Hin. destruct Hin; [apply Ho|eapply IH]; eassumption. }
-    specialize (Hre (bump s h)). destruct (apply_reops (bump s h) ops) as [s1 i1]. simpl in Hre.
+    specialize (Hre (bump s h)). destruct (apply_reops disp (bump s h) ops) as [s1 i1]. simpl in Hre.
     destruct (interruptible k && match res with RInterrupt => true | _ => false end).
     + simpl. intros it [<-|Hin]; [auto|]. specialize (Hre it Hin). destruct it; auto; contradiction.
-    + specialize (IH s1). destruct (run_chain beh s1 r inst k) as [s2 i2]. simpl in *.
+    + specialize (IH s1). destruct (run_chain beh disp s1 r inst k) as [s2 i2]. simpl in *.
       intros it [<-|Hin]; [auto|]. apply in_app_or in Hin. destruct Hin as [Hin|Hin]; [|apply IH; exact Hin].
       specialize (Hre it Hin). destruct it; auto; contradiction.
 Qed.
 
 (** an instance that was never given a dispatcher just runs its own method *)
-Theorem dispatch_unwrapped s inst k : get_w s inst = None -> d_dispatch beh s inst k = (s, [DProto inst k]).
+Theorem dispatch_unwrapped s inst k : get_w s inst = None -> d_dispatch beh disp s inst k = (s, [DProto inst k]).
 Proof. intros H. unfold d_dispatch. rewrite H. reflexivity. Qed.
 
 End WithBeh.
+
+(* ---- dispatches started from inside a running handler ------------------------------------------- *)
+
+Lemma dispatchF_unfold beh f s inst k :
+  dispatchF beh (S f) s inst k =
+  match get_w s inst with
+  | Some w => run_chain beh (dispatchF beh f) s (chain w k) inst k
+  | None => (s, [DProto inst k])
+  end.
+Proof. reflexivity. Qed.
+
+Lemma apply_reops_nested disp s ops i k sub :
+  In (DNest i k sub) (snd (apply_reops disp s ops)) -> exists s', sub = snd (disp s' i k).
+Proof.
+  revert s. induction ops as [|o r IH]; intros s; simpl; [intros []|].
+  assert (Ho : In (DNest i k sub) (snd (apply_reop disp s o)) -> exists s', sub = snd (disp s' i k)).
+  { destruct o as [i0 k0 h|i0 k0 h|i0 k0]; simpl.
+    - unfold d_register. destruct (get_w s i0); simpl; [intros []|intros [E|[]]; discriminate].
+    - unfold d_unregister. destruct (get_w s i0) as [w|]; simpl; [|intros [E|[]]; discriminate].
+      destruct (remove_first h (chain w k0)); simpl; [intros []|intros [E|[]]; discriminate].
+    - destruct (disp s i0 k0) as [s1 sub0] eqn:E. simpl. intros [H|[]]. inversion H; subst. exists s. rewrite E. reflexivity. }
+  destruct (apply_reop disp s o) as [s1 i1]. specialize (IH s1). destruct (apply_reops disp s1 r) as [s2 i2]. simpl in *.
+  intros Hin. apply in_app_or in Hin. destruct Hin; auto.
+Qed.
+
+Lemma run_chain_nested beh disp s snap inst k0 i k sub :
+  In (DNest i k sub) (snd (run_chain beh disp s snap inst k0)) -> exists s', sub = snd (disp s' i k).
+Proof.
+  revert s. induction snap as [|h r IH]; intros s; simpl; [intros [E|[]]; discriminate|].
+  destruct (beh h (nth h (d_calls s) 0)) as [res ops].
+  pose proof (apply_reops_nested disp (bump s h) ops i k sub) as Hn.
+  destruct (apply_reops disp (bump s h) ops) as [s1 i1]. simpl in Hn.
+  destruct (interruptible k0 && match res with RInterrupt => true | _ => false end); simpl.
+  - intros [E|Hin]; [discriminate|auto].
+  - specialize (IH s1). destruct (run_chain beh disp s1 r inst k0) as [s2 i2]. simpl in *.
+    intros [E|Hin]; [discriminate|]. apply in_app_or in Hin. destruct Hin; auto.
+Qed.
+
+(** a dispatch recorded inside another one is itself a run of the dispatcher (one level of fuel down), so
+    everything proved about a dispatch holds for it too, at every depth *)
+Theorem nested_is_dispatch beh f s inst k0 i k sub :
+  In (DNest i k sub) (snd (dispatchF beh (S f) s inst k0)) -> exists s', sub = snd (dispatchF beh f s' i k).
+Proof.
+  rewrite dispatchF_unfold. destruct (get_w s inst) as [w|]; [apply run_chain_nested|].
+  simpl. intros [E|[]]; discriminate.
+Qed.
+
+(** the handlers a dispatch invokes, at its own level: the chain of the dispatched instance and kind as it
+    was when THAT dispatch started, whatever the nested dispatches did in between *)
+Theorem dispatchF_calls_prefix beh f s inst k w :
+  get_w s inst = Some w -> exists suf, chain w k = calls (snd (dispatchF beh (S f) s inst k)) ++ suf.
+Proof. intros H. rewrite dispatchF_unfold, H. apply dispatch_calls_prefix. Qed.
+
